@@ -443,7 +443,11 @@ def r4_validate_before_commit(rep, src):
         # (a store that the same path undoes before it raises -- the handler of the commit puts back what was taken: the target is
         # assigned the value that was read from it before the first store, `T = <T as saved>` with the saving local substituted away --
         # leaves nothing behind)
-        left_behind = [e for i, e in enumerate(p_.events) if doc_store(e) and not (e[2] is not None and norm(e[2]) == e[1]) and not any(
+        def known_none(target):
+            # the path has established that the target holds None (`<target> is not None` false / `<target> is None` true)
+            return any((norm(t_) == '%s is not None' % target and not pol_) or (norm(t_) == '%s is None' % target and pol_) for t_, pol_ in p_.conds)
+        left_behind = [e for i, e in enumerate(p_.events) if doc_store(e) and not (e[2] is not None and norm(e[2]) == e[1])
+                       and not (isinstance(e[2], ast.Constant) and e[2].value is None and known_none(e[1])) and not any(
             e2[0] == 'store' and e2[1] == e[1] and e2[2] is not None and norm(e2[2]) == e[1] for e2 in p_.events[i + 1:])]
         if refusal_after and left_behind and late is None:
             late = left_behind[0]
